@@ -44,7 +44,7 @@ pub mod ledger {
 //@prove syscalls.fsmount
 //@prove syscalls.open_tree
 //@prove syscalls.geteuid
-//@prove syscalls.readlinkat
+//@prove syscalls.readlinkat u05
 }
 } // verus!
 fn main() {}
